@@ -263,7 +263,10 @@ func init() {
 			pc := p.FirstConn()
 			if stall {
 				t.Check("enqueue_nonblocking", full > 0, "a stalled peer with a write queue of %d never produced a 'write queue full' error", wq)
-				t.Check("timing:enqueue_nonblocking", slowest < t.U(3), "a 'write queue full' error took %v: the caller was blocked", slowest)
+				// a caller blocked inside Write stays there until the queue drains, which a stalled peer never lets happen (the scenario then ends
+				// in the watchdog): the bound only has to separate "returned" from "stuck", and it includes marshalling and packing a large
+				// body under the memory traffic of 48 concurrent callers
+				t.Check("timing:enqueue_nonblocking", slowest < t.U(20), "a 'write queue full' error took %v: the caller was blocked", slowest)
 				return
 			}
 			raw := pc.Raw()
@@ -314,7 +317,7 @@ func init() {
 	outScenario("c12/writers-16-mixed", true, 16, 12, []int{1, 40, 3000, 70000}, 64, 1024, false)
 	outScenario("c12/big-frames", true, 3, 3, []int{1 << 20, 2500000}, 16, 1<<30, false)
 	outScenario("c12/queue-1", true, 6, 20, []int{10, 500}, 1, 0, false)
-	outScenario("c12/stalled-peer", true, 48, 2, []int{1 << 20}, 2, 1<<30, true)
+	outScenario("c12/stalled-peer", true, 48, 2, []int{1 << 19}, 2, 1<<30, true)
 
 	// C03 TCP half: the peer writes a stream of frames in a chosen segmentation, waiting for the client to consume each segment
 	register(&scenario{Name: "c03/tcp-segmentation", Props: []string{"C03"}, Quick: true, Transports: []string{"tcp"}, Run: func(t *T) {
